@@ -21,6 +21,34 @@ impl Model {
         let stdout = BufReader::new(child.stdout.take().unwrap());
         Model { child, stdin, stdout, calls: 0 }
     }
+    /// Like `ask`, answering the model's oracle queries ("Q ...") from `oracle` meanwhile.
+    pub fn ask_with(&mut self, req: &str, oracle: &mut crate::oracle::Oracle) -> Result<String, String> {
+        self.calls += 1;
+        self.stdin.write_all(req.as_bytes()).map_err(|e| e.to_string())?;
+        self.stdin.write_all(b"\n").map_err(|e| e.to_string())?;
+        self.stdin.flush().map_err(|e| e.to_string())?;
+        loop {
+            let mut line = String::new();
+            let n = self.stdout.read_line(&mut line).map_err(|e| e.to_string())?;
+            if n == 0 {
+                return Err(format!("model driver closed its output while answering {:?}", req));
+            }
+            let line = line.trim_end();
+            if let Some(q) = line.strip_prefix("Q ") {
+                let a = oracle.answer(q);
+                self.stdin.write_all(b"A ").map_err(|e| e.to_string())?;
+                self.stdin.write_all(a.as_bytes()).map_err(|e| e.to_string())?;
+                self.stdin.write_all(b"\n").map_err(|e| e.to_string())?;
+                self.stdin.flush().map_err(|e| e.to_string())?;
+            } else if let Some(r) = line.strip_prefix("R ") {
+                return Ok(r.to_string());
+            } else if line == "R" {
+                return Ok(String::new());
+            } else {
+                return Err(format!("model driver answered {:?} to {:?}", line, req));
+            }
+        }
+    }
     /// Sends one request line; returns the payload after "R ", or Err with the driver's complaint.
     pub fn ask(&mut self, req: &str) -> Result<String, String> {
         self.calls += 1;
